@@ -328,7 +328,7 @@ def r07e(chk, rid='R07.e'):
 
 
 def r07f(chk, rid='R07.f'):
-    chk.rule(rid, 'chunking invariance of the incremental decoder, decided by evaluation: IncrementalDecoder.decode - with detectencoding_str and _fixencoding evaluated from the source as well, and the interpreter\'s own incremental decoders underneath - is evaluated for documents with a BOM, with an @charset rule, with both and with neither, cut into two chunks at every position (thorough tier: three chunks): the concatenated output always equals the output for the whole document')
+    chk.rule(rid, 'chunking invariance of the incremental decoder and agreement with the stateless decoder (the module-level decode, evaluated as well), decided by evaluation: IncrementalDecoder.decode - with detectencoding_str and _fixencoding evaluated from the source as well, and the interpreter\'s own incremental decoders underneath - is evaluated for documents with a BOM, with an @charset rule, with both and with neither, cut into two chunks at every position (thorough tier: three chunks): the concatenated output always equals the output for the whole document')
     import codecs
     import itertools
 
@@ -344,8 +344,15 @@ def r07f(chk, rid='R07.f'):
         '@charset latin-1': '@charset "iso-8859-1";a{c:"\xe9"}'.encode('iso-8859-1'),
         'plain': b'a{top:0}',
         'near @charset': b'@chars{top:0}',
+        'utf-16 BOM, rule names another encoding': '@charset "iso-8859-1";a{}'.encode('utf-16'),
+        'utf-8 BOM, rule names another encoding': b'\xef\xbb\xbf' + b'@charset "koi8-r";a{}',
     }
     intr = {'codecs.getincrementaldecoder': codecs.getincrementaldecoder, 'ValueError': 'ValueError'}
+    oneshot = m.get('decode')
+
+    def decode_stateless(data):
+        r = Evaluator(oneshot, intrinsics={'codecs.getdecoder': codecs.getdecoder, 'ValueError': 'ValueError'}, module=m).run(input=data)
+        return r if isinstance(r, Raised) else r[0]
 
     def decode_all(chunks):
         me = Obj(decoder=None, encoding=None, force=True, _errors='strict', buffer=b'', headerfixed=False)
@@ -364,6 +371,9 @@ def r07f(chk, rid='R07.f'):
         if isinstance(whole, Raised):
             bad.append(f'{label}: the whole document: {whole!r}')
             continue
+        stateless = decode_stateless(data)
+        if stateless != whole:
+            bad.append(f'{label}: the incremental decoder gives {whole!r} for the whole document, the stateless decoder {stateless!r}')
         cuts = [(i,) for i in range(0, len(data) + 1)]
         if chk.tier == 'thorough':
             cuts += list(itertools.combinations(range(0, len(data) + 1), 2))
